@@ -1033,6 +1033,112 @@ def part_b(ctx, nhier, per_hier):
 
 
 # ------------------------------------------------------------------------------------------------
+# part D: native accelerators handed over as callables that select a documented non-default stopping criterion
+#         (functools.partial(krylov.cg, criteria=...)): status 0 => the DOCUMENTED rule holds for the returned iterate,
+#         recomputed from scratch with an independent transcription of the cycle
+# ------------------------------------------------------------------------------------------------
+
+D_RULES = {'rr': '||r|| < tol ||b||', 'rr+': '||r|| < tol (||b|| + ||A||_F ||x||)', 'MrMr': '||M r|| < tol ||M b||',
+           'rMr': '<r, M r>^1/2 < tol'}
+D_ACCELS = [('cg', 'rr'), ('cg', 'rr+'), ('cg', 'MrMr'), ('cg', 'rMr'), ('cg', 'MrMr'), ('cg', 'rMr'),
+            ('bicgstab', 'rr+'), ('cr', 'rr+'), ('steepest_descent', 'rr+'), ('cgnr', 'rr+'), ('cgne', 'rr+')]
+D_HIERS = [('rs', 'poisson1d'), ('sa', 'poisson1d'), ('rs', 'poisson2d'), ('sa', 'poisson2d'), ('sa', 'aniso'), ('rs', 'graphlap'),
+           ('sa_jacobi', 'poisson1d'), ('rootnode', 'poisson2d'), ('sa', 'herm'), ('pairwise', 'poisson1d'), ('rs', 'aniso')]
+
+
+def crit_case(ctx, spec, ml=None):
+    import functools
+    from pyamg import krylov
+    if ml is None:
+        A, kind = build_matrix(spec['matrix'], spec['mseed'], big=bool(spec['big']))
+        ml = build_hier(spec['ctor'], A, kind, spec['cseed'])
+        if ml is None:
+            return
+    A0 = ml.levels[0].A
+    n = A0.shape[0]
+    cplx = np.iscomplexobj(A0.data)
+    rng = np.random.default_rng(spec['vseed'])
+    b = rand_vec(rng, n, cplx)
+    if spec['bkind'] == 1:                       # smooth right-hand side
+        b = A0 @ np.ones(n, dtype=b.dtype) + 1.0
+    x0 = rand_vec(rng, n, cplx) if spec['x0'] else None
+    aname, crit = spec['accel'], spec['criteria']
+    cyc, tol, maxiter = spec['cycle'], spec['tol'], spec['maxiter']
+    case = {'part': 'D', **spec}
+    label = (f'{spec["ctor"]} hierarchy of {spec["matrix"]} (n={n}, {len(ml.levels)} levels), accel=functools.partial(pyamg.krylov.'
+             f'{aname}, criteria={crit!r}), cycle={cyc!r}, tol={tol:g}, maxiter={maxiter}, '
+             f'{"smooth" if spec["bkind"] else "random"} b, x0 {"random" if spec["x0"] else "None"}')
+    key = _key('D', sorted(spec.items(), key=str))
+    res = []
+    with warnings.catch_warnings(record=True):
+        warnings.simplefilter('ignore')
+        np.seterr(all='ignore')
+        try:
+            x, info = ml.solve(b, x0=x0, tol=tol, maxiter=maxiter, cycle=cyc, accel=functools.partial(getattr(krylov, aname), criteria=crit),
+                               residuals=res, return_info=True)
+        except Exception as e:                    # noqa: BLE001   (a criterion the accelerator does not offer)
+            ctx.feat(f'D:raised:{aname}:{crit}:{type(e).__name__}')
+            ctx.case(key=key, nontrivial=False)
+            return
+        Mref = ref_operator(ml, cyc.upper())
+    xf = np.ravel(x)
+    ctx.case(key=key, nontrivial=len(res) > 1)
+    ctx.feat(f'D:{aname}:{crit}')
+    ctx.feat('D:status=' + ('0' if info == 0 else ('neg' if info < 0 else 'maxiter')))
+    if info != 0:
+        return
+    if not np.isfinite(xf).all():
+        ctx.violation(f'{label}: status 0 with a non-finite iterate', case)
+        return
+    r = np.ravel(b) - A0 @ xf
+    nb = pnorm(b) or 1.0
+    nr = pnorm(r)
+    normA1 = sla.norm(sp.csr_array(A0), 1)
+    roundoff = 5e-14 * (normA1 * np.linalg.norm(xf) + nb + (0.0 if x0 is None else normA1 * np.linalg.norm(x0)))
+    if crit == 'rr':
+        m, thr, ro = nr, tol * nb, roundoff
+    elif crit == 'rr+':
+        normF = float(np.linalg.norm(np.ravel(sp.csr_array(A0).data)))
+        m, thr, ro = nr, tol * (normF * float(np.linalg.norm(xf)) + nb), roundoff
+    else:
+        Mr, Mb = Mref @ r, Mref @ np.ravel(b)
+        gain = max(1.0, pnorm(Mb) / nb, (pnorm(Mr) / nr) if nr else 1.0)          # observed amplification by M
+        if crit == 'MrMr':
+            m, thr, ro = pnorm(Mr), tol * (pnorm(Mb) or 1.0), 50 * gain * roundoff
+        else:
+            v = np.vdot(r, Mr)
+            m, thr, ro = float(np.sqrt(max(np.real(v), 0.0))), tol, 50 * np.sqrt(gain) * roundoff + 1e-7 * tol
+    if abs(m - thr) <= 1e-6 * thr:
+        ctx.near_skipped += 1
+    elif m > thr * (1 + 1e-4) + ro:
+        ctx.violation(f'{label}: status 0 after {len(res) - 1} iterations, but the documented stopping rule {D_RULES[crit]} does not hold for '
+                      f'the returned iterate: recomputed left side {m:.3e}, right side {thr:.3e} (ratio {m / thr:.3g})', case)
+
+
+def part_d(ctx, nhier, per_hier):
+    rng = np.random.default_rng([int(ctx.seed) & 0xffffffff, 0xC0811])
+    for t in range(nhier):
+        ctor, mname = D_HIERS[t % len(D_HIERS)] if t < 2 * len(D_HIERS) else D_HIERS[int(rng.integers(len(D_HIERS)))]
+        ms, cs = int(rng.integers(2**31)), int(rng.integers(2**31))
+        big = int(mname in ('poisson1d', 'poisson2d') and rng.random() < 0.6)
+        A, kind = build_matrix(mname, ms, big=bool(big))
+        try:
+            ml = build_hier(ctor, A, kind, cs)
+        except Exception as e:                # noqa: BLE001
+            ctx.feat(f'D:setup-raised:{ctor}:{type(e).__name__}')
+            ml = None
+        if ml is None:
+            continue
+        for u in range(per_hier):
+            aname, crit = D_ACCELS[(u + t) % len(D_ACCELS)] if u < 6 else D_ACCELS[int(rng.integers(len(D_ACCELS)))]
+            spec = {'matrix': mname, 'mseed': ms, 'big': big, 'ctor': ctor, 'cseed': cs, 'accel': aname, 'criteria': crit,
+                    'cycle': str(rng.choice(['V', 'V', 'W', 'v'])), 'tol': float(rng.choice([1e-3, 1e-4, 1e-6, 1e-8, 0.1])),
+                    'maxiter': int(rng.choice([3, 8, 40, 200])), 'x0': int(rng.random() < 0.4), 'bkind': int(rng.random() < 0.4),
+                    'vseed': int(rng.integers(2**31))}
+            crit_case(ctx, spec, ml=ml)
+
+
+# ------------------------------------------------------------------------------------------------
 # part C: pyamg.solve (black box)
 # ------------------------------------------------------------------------------------------------
 
@@ -1271,6 +1377,7 @@ def run(ctx):
     part_a(ctx, ctx.scale(220, 8000))
     part_b(ctx, ctx.scale(26, 1400), ctx.scale(14, 24))
     part_c(ctx, ctx.scale(8, 140), ctx.scale(5, 140))
+    part_d(ctx, ctx.scale(22, 400), ctx.scale(8, 16))
 
 
 def search(ctx):
@@ -1278,6 +1385,7 @@ def search(ctx):
     part_a(ctx, 400)
     part_b(ctx, 60, 20)
     part_c(ctx, 10, 6)
+    part_d(ctx, 44, 10)
 
 
 def replay(ctx, data):
@@ -1312,6 +1420,8 @@ def replay(ctx, data):
             print('  observed:', r[1])
             if o != r[1]:
                 ctx.corr('c08_bb', case, o, r[1])
+    elif part == 'D':
+        crit_case(ctx, spec)
     elif part == 'C-size':
         bb_size_case(ctx, ctx.lean(['c08_bb 7 hermitian 9 1 1 1/1000 400 0 0 0 0 9'])[0])
     for v in ctx.violations[:8]:
